@@ -116,13 +116,19 @@ def scan(w, s, name, tier, kinds_wanted, known, prop, survey, align=0, deep=Fals
     if align in (2, 4):
         # 32-bit instruction words / 16-bit words with extension words: structured second half words (single bits,
         # adjacent bit pairs, masks such as 0x00ff / 0xff00) on a stride that is coprime to every field width
-        passes.append(dict(step="65" if tier == "quick" else "13", tails="0", stails="37", lo="3"))   # quick is a subset of thorough
+        if align == 2 and tier == "quick":
+            # 16-bit words: every 13th pattern like the thorough tier, but only the patterns whose instruction has an
+            # extension word (a subset of the thorough tier's set)
+            passes.append(dict(step="13", tails="0", stails="37", lo="3", extonly="1"))
+        else:
+            passes.append(dict(step="65" if tier == "quick" else "13", tails="0", stails="37", lo="3"))   # quick is a subset of thorough
     anomalies = b""
     tot = dict(evals=0, accepted=0, closed=0, unknown=0, stripped=0)
     for ps in passes:
         try:
             r = w.call({"cmd": "c07scan", "cpu": name, "lo": ps["lo"], "hi": "65535", "step": ps["step"], "tails": ps["tails"],
-                        "stails": ps["stails"], "addr": "256", "deep": ps.get("deep", "0")})
+                        "stails": ps["stails"], "addr": "256", "deep": ps.get("deep", "0"),
+                        "extonly": ps.get("extonly", "0")})
         except (WorkerCrash, WorkerTimeout) as e:
             s.notes.append("HARNESS-ERROR c07scan for %s did not complete: %s" % (name, type(e).__name__))
             return []
